@@ -612,7 +612,11 @@ def generate(rng, n_stmts=6):
     elif r < 0.35:
         rets[-1] = g.expr_like(g.env, rets[-1], 1)
         g.feat.add("return_expression")
-    ann = [f"{tyname(eval(x, g.env).a)}[...]" for x in rets]  # noqa: S307
+    def _ann(x):
+        a = eval(x, g.env).a  # noqa: S307
+        return tyname(a) if a.ndim == 0 else f"{tyname(a)}[{', '.join(['None'] * a.ndim)}]"
+
+    ann = [_ann(x) for x in rets]
     rann = ann[0] if len(ann) == 1 else f"Tuple[{', '.join(ann)}]"
     src = HEADER + "".join(h["src"] + "\n" for h in helpers)
     src += "@script(default_opset=op)\n" + f"def main({', '.join(sig)}) -> {rann}:\n" + "\n".join(body) + f"\n    return {', '.join(rets)}\n"
